@@ -251,3 +251,173 @@ fn seq_3x3() {
         walk(&d, 8);
     }
 }
+
+// ---------------------------------------------------------------------------------------------------------------------------
+// read-only accessors and the remaining single operations (all loop-free: complete for lists of every length)
+// ---------------------------------------------------------------------------------------------------------------------------
+
+/// peek_front / peek_front_ptr hand out exactly the head node and touch nothing (`peek_back` is test-only code)
+#[kani::proof]
+fn window_peek() {
+    let empty: bool = kani::any();
+    let single: bool = kani::any();
+    let h = raw(1);
+    let t = raw(2);
+    let far: NonNull<DeqNode<u8>> = NonNull::dangling();
+    unsafe {
+        (*h.as_ptr()).prev = None;
+        (*h.as_ptr()).next = if single { None } else { Some(far) };
+        (*t.as_ptr()).prev = Some(far);
+        (*t.as_ptr()).next = None;
+    }
+    let len: usize = kani::any();
+    kani::assume(if empty { len == 0 } else if single { len == 1 } else { len >= 2 });
+    let head = if empty { None } else { Some(h) };
+    let tail = if empty { None } else if single { Some(h) } else { Some(t) };
+    let d: Deque<u8> = Deque { region: MainProbation, len, head, tail, cursor: None, marker: PhantomData };
+    kani::cover!(!empty && !single);
+
+    match d.peek_front() {
+        Some(n) => { assert!(!empty && std::ptr::eq(n, h.as_ptr()) && n.element == 1); }
+        None => assert!(empty),
+    }
+    assert!(d.peek_front_ptr() == head);
+    assert!(d.head == head && d.tail == tail && d.len == len && d.cursor.is_none());
+    unsafe { assert!((*h.as_ptr()).next == if single { None } else { Some(far) }); assert!((*t.as_ptr()).prev == Some(far)); }
+    std::mem::forget(d);
+    unsafe { drop(Box::from_raw(h.as_ptr())); drop(Box::from_raw(t.as_ptr())); }
+}
+
+/// contains(x): true for a member (it has a predecessor or it is the head), false for a detached node. (A node linked into
+/// ANOTHER list also answers true: callers select the list by the node's region tag first: unsync/concurrent deques.rs.)
+#[kani::proof]
+fn window_contains() {
+    let x_is_head: bool = kani::any();
+    let x_linked: bool = kani::any();      // x is a member of d
+    let p = raw(1);
+    let x = raw(2);
+    let other = raw(3);
+    let far: NonNull<DeqNode<u8>> = NonNull::dangling();
+    unsafe {
+        (*p.as_ptr()).prev = Some(far); (*p.as_ptr()).next = Some(x);
+        (*x.as_ptr()).prev = if x_linked && !x_is_head { Some(p) } else { None };
+        (*x.as_ptr()).next = None;
+    }
+    let len: usize = kani::any();
+    kani::assume(len >= 1);
+    let head = if x_linked && x_is_head { x } else { other };
+    let d: Deque<u8> = Deque { region: MainProbation, len, head: Some(head), tail: Some(far), cursor: None, marker: PhantomData };
+    kani::cover!(x_linked && !x_is_head);
+    kani::cover!(!x_linked);
+
+    let b = d.contains(unsafe { x.as_ref() });
+
+    assert!(b == x_linked);
+    std::mem::forget(d);
+    unsafe { drop(Box::from_raw(p.as_ptr())); drop(Box::from_raw(x.as_ptr())); drop(Box::from_raw(other.as_ptr())); }
+}
+
+/// move_front_to_back: the head node becomes the tail (the same local contract as move_to_back of the head), an empty list is untouched
+#[kani::proof]
+fn window_move_front_to_back() {
+    // shape: 0 = empty; 1 = single node; 2 = H <-> N(tail); 3 = H <-> N ... (far) ... T
+    let shape: u8 = kani::any();
+    kani::assume(shape < 4);
+    let h = raw(1);
+    let n = raw(2);
+    let t = raw(3);
+    let far_m: NonNull<DeqNode<u8>> = NonNull::dangling();
+    unsafe {
+        (*h.as_ptr()).prev = None;
+        match shape {
+            0 | 1 => { (*h.as_ptr()).next = None; }
+            2 => { (*h.as_ptr()).next = Some(n); (*n.as_ptr()).prev = Some(h); (*n.as_ptr()).next = None; }
+            _ => {
+                (*h.as_ptr()).next = Some(n); (*n.as_ptr()).prev = Some(h); (*n.as_ptr()).next = Some(far_m);
+                (*t.as_ptr()).prev = Some(far_m); (*t.as_ptr()).next = None;
+            }
+        }
+    }
+    let len: usize = kani::any();
+    kani::assume(match shape { 0 => len == 0, 1 => len == 1, 2 => len == 2, _ => len >= 4 });
+    let head = if shape == 0 { None } else { Some(h) };
+    let tail0 = match shape { 0 => None, 1 => Some(h), 2 => Some(n), _ => Some(t) };
+    let mut d: Deque<u8> = Deque { region: MainProbation, len, head, tail: tail0, cursor: None, marker: PhantomData };
+    kani::cover!(shape == 3);
+
+    d.move_front_to_back();
+
+    assert!(d.len == len);
+    unsafe {
+        match shape {
+            0 => assert!(d.head.is_none() && d.tail.is_none()),
+            1 => assert!(d.head == Some(h) && d.tail == Some(h) && (*h.as_ptr()).prev.is_none() && (*h.as_ptr()).next.is_none()),
+            _ => {
+                let old_tail = tail0.unwrap();
+                assert!(d.head == Some(n) && (*n.as_ptr()).prev.is_none());
+                assert!(d.tail == Some(h) && (*h.as_ptr()).next.is_none() && (*h.as_ptr()).prev == Some(old_tail));
+                assert!((*old_tail.as_ptr()).next == Some(h));
+                if shape == 3 { assert!((*n.as_ptr()).next == Some(far_m) && (*t.as_ptr()).prev == Some(far_m)); }
+            }
+        }
+    }
+    std::mem::forget(d);
+    unsafe { drop(Box::from_raw(h.as_ptr())); drop(Box::from_raw(n.as_ptr())); drop(Box::from_raw(t.as_ptr())); }
+}
+
+/// unlink_and_drop: the neighbours are joined as by unlink and the node's allocation is released exactly once (CBMC's
+/// deallocation checks are on: a second release by this harness would be a double free, none happens)
+#[kani::proof]
+fn window_unlink_and_drop() {
+    let has_p: bool = kani::any();
+    let has_n: bool = kani::any();
+    let p = raw(1);
+    let x = raw(2);
+    let n = raw(3);
+    let far_l: NonNull<DeqNode<u8>> = NonNull::dangling();
+    let far_r: NonNull<DeqNode<u8>> = NonNull::dangling();
+    unsafe {
+        (*x.as_ptr()).prev = if has_p { Some(p) } else { None };
+        (*x.as_ptr()).next = if has_n { Some(n) } else { None };
+        (*p.as_ptr()).next = Some(x); (*p.as_ptr()).prev = Some(far_l);
+        (*n.as_ptr()).prev = Some(x); (*n.as_ptr()).next = Some(far_r);
+    }
+    let len: usize = kani::any();
+    kani::assume(len >= 3);
+    let head = if has_p { far_l } else { x };
+    let tail = if has_n { far_r } else { x };
+    let mut d: Deque<u8> = Deque { region: MainProbation, len, head: Some(head), tail: Some(tail), cursor: None, marker: PhantomData };
+    kani::cover!(has_p && has_n);
+
+    unsafe { d.unlink_and_drop(x) };
+
+    unsafe {
+        if has_p { assert!((*p.as_ptr()).next == if has_n { Some(n) } else { None }); }
+        if has_n { assert!((*n.as_ptr()).prev == if has_p { Some(p) } else { None }); }
+    }
+    assert!(d.head == if has_p { Some(far_l) } else if has_n { Some(n) } else { None });
+    assert!(d.tail == if has_n { Some(far_r) } else if has_p { Some(p) } else { None });
+    assert!(d.len == len - 1);
+    std::mem::forget(d);
+    unsafe { drop(Box::from_raw(p.as_ptr())); drop(Box::from_raw(n.as_ptr())); }   // x is NOT released here: unlink_and_drop did
+}
+
+/// DeqNode::new, DeqNode::next_node_ptr, Deque::new, Deque::region
+#[kani::proof]
+fn node_and_list_constructors() {
+    let v: u8 = kani::any();
+    let node = DeqNode::new(v);
+    assert!(node.next.is_none() && node.prev.is_none() && node.element == v);
+    let a = raw(1);
+    let far: NonNull<DeqNode<u8>> = NonNull::dangling();
+    let linked: bool = kani::any();
+    unsafe { (*a.as_ptr()).next = if linked { Some(far) } else { None }; }
+    assert!(DeqNode::next_node_ptr(a) == if linked { Some(far) } else { None });
+    let r: u8 = kani::any();
+    kani::assume(r < 4);
+    let region = crate::common::CacheRegion::from(r as usize);
+    let d: Deque<u8> = Deque::new(region);
+    assert!(d.len == 0 && d.head.is_none() && d.tail.is_none() && d.cursor.is_none());
+    assert!(d.region() as usize == r as usize);
+    unsafe { drop(Box::from_raw(a.as_ptr())); }
+}
